@@ -291,7 +291,7 @@ fn run_cancelall(kind: &str, seed: u64, replay: Option<Vec<u8>>) -> (sched::Outc
             }
         }
     }
-    let cfg = format!("cfg model=none kind={kind}");
+    let cfg = format!("cfg model=cancelall MAX=4 k={k} flavor={} drains=1 kind={kind}", if kind.starts_with("ogre") { "ogre" } else { "arc" });
     std::mem::forget(ch);
     (outcome, viol, cfgkey, cfg)
 }
@@ -595,7 +595,7 @@ fn main() {
             _ => o.trace.iter().filter(|l| l.contains(" mc.fan.read ")).count() > 1,
         };
         rep.add_run(&o.trace, nontrivial, &cfgkey, &format!("{:?}", o.verdict));
-        if sub != "cancelall" && sub != "reuse" { out.write_run(&format!("{cfg} seed={seed} run={i}"), &o.trace); }
+        if sub != "reuse" { out.write_run(&format!("{cfg} seed={seed} run={i}"), &o.trace); }
         for (k, d) in viol {
             let header = vec![format!("cmd multi kind={kind} sub={sub} runs=1 seedx={seed} choices={}", choices_str(&o.choices)), format!("violation {k}: {d}"), cfg.clone()];
             let path = write_replay(&replay_dir, &format!("{pid}-multi-{kind}-{sub}-seed{seed}-{k}"), &header, &o.trace);
